@@ -98,6 +98,7 @@ func runFlexLarge(c flCase, r *pb.Rec) error {
 				if vs[i] != next-n+1+i {
 					return fmt.Errorf("%s: the argument slice was modified", where)
 				}
+				vs[i] = -99 - i // the caller goes on using its own slice
 			}
 		case 2, 3:
 			n := size(lenB)
